@@ -142,6 +142,23 @@ def constructed(rng):
     yield E.PowerExpression(V("x"), C(2))
     yield E.PowerExpression(C(2), C(-3))
     yield E.PowerExpression(C(10), C(400))
+    # every operator over a variable, under every operator: the parser only puts '!' after a literal and
+    # 'sgn' around a group, the node classes take any operand
+    unary = [E.NegateExpression, E.FactorialExpression, E.AbsExpression, E.SgnExpression]
+    binary = [E.AddExpression, E.SubtractExpression, E.MultiplyExpression, E.DivideExpression, E.PowerExpression]
+    for U in unary:
+        yield U(V("x"))
+        for U2 in unary:
+            yield U(U2(V("x")))
+        for B in binary:
+            yield U(B(V("x"), C(2)))
+            yield U(B(C(3), V("y")))
+            yield B(U(V("x")), C(2))
+            yield B(C(3), U(V("y")))
+            yield B(U(V("x")), U(V("y")))
+    yield E.MultiplyExpression(C(2), E.FactorialExpression(E.AddExpression(V("n"), C(1))))
+    yield E.FactorialExpression(E.FactorialExpression(C(3)))
+    yield E.SubtractExpression(E.FactorialExpression(E.MultiplyExpression(C(2), V("x"))), E.FactorialExpression(V("y")))
 
 
 def colossal_powers(rec):
@@ -181,9 +198,13 @@ def run(rec, cfg):
             for mode in ("int", "small-int", "float", "mixed"):
                 for _ in range(6):
                     evaluate(rec, t, context_for(rng, ["x", "y"], mode))
+            for small in ({"x": 3, "y": 2, "n": 4}, {"x": 0, "y": 5, "n": 0}, {"x": 6, "y": 1, "n": 2}, {"x": -2, "y": 3, "n": 1}, {"x": 2.5, "y": 4, "n": 3}):
+                evaluate(rec, t, small)
             evaluate(rec, t, {})
             evaluate(rec, t, None)
             evaluate(rec, t, {"x": None, "y": 1})
+            evaluate(rec, t, {"y": 2})
+            evaluate(rec, t, {"x": 3, "n": None})
     from . import _rulecommon as RC
 
     if cfg.shard == 2 % cfg.nshards:
